@@ -253,7 +253,7 @@ func vC06DescribeNet(c *vh.Case, sc vC06Sc, d *vC06Lookup, n *vNet) {
 // ---- PutValue ------------------------------------------------------------------------------------------
 
 func TestVerif_C06_putvalue(t *testing.T) {
-	vh.Run(t, vh.Spec{Prop: "C06", Unit: "putvalue", Quick: 300, Thorough: 10000, CostMs: 15,
+	vh.Run(t, vh.Spec{Prop: "C06", Unit: "putvalue", Quick: 700, Thorough: 25000, CostMs: 6,
 		Rule:    "PRNG networks as C01 (N 1-250, thorough up to 850; K/alpha/beta menus; knowledge full/kbucket/sparse; 0-40% peers failing the lookup by dial/request/silence); 0-70% of the peers fail the PUT_VALUE (stream error / silent until the 10 s read timeout / slower than the 30 s per-peer timeout); local store empty or holding a worse, equal or better record; one PutValue under lookup-event registration; oracle: local datastore journal at the instant the first PUT_VALUE is handed to the sender, recipients and payloads of the PUT_VALUE log vs R recomputed from the embedded lookup's events; non-trivial = the lookup returned >= 2 peers and at least one recipient failed or more than K peers were learned; distinct by (shape, behaviour mix, response arrival order)",
 		Clauses: []string{"put-one-per-closest", "put-only-to-closest", "put-same-record", "local-write-before-first-put", "local-record-stored", "healthy-recipient-got-record", "put-despite-failures"}},
 		func(c *vh.Case) {
@@ -745,7 +745,7 @@ func vC06RunProvide(t *testing.T, c *vh.Case, sc vC06ProvSc) {
 }
 
 func TestVerif_C06_provide(t *testing.T) {
-	vh.Run(t, vh.Spec{Prop: "C06", Unit: "provide", Quick: 300, Thorough: 10000, CostMs: 15,
+	vh.Run(t, vh.Spec{Prop: "C06", Unit: "provide", Quick: 700, Thorough: 25000, CostMs: 6,
 		Rule:    "classic Provide on PRNG networks as putvalue; host addresses = 0-5 of a pool of public/private/loopback/dns addresses, AddressFilter in {none, public-only, tcp-only, first-only, reject-all}; 0-70% of the peers fail ADD_PROVIDER; 1/12 with announce=false; oracle: local provider journal entry present when the first ADD_PROVIDER is handed to the sender, one ADD_PROVIDER per member of R (recomputed from lookup events) and none elsewhere, payload = key, exactly the local ID, addresses = non-empty filter(host.Addrs()), nothing sent when that is empty; non-trivial = >= 2 recipients and (a failing recipient or more than K learned); distinct by (shape, behaviour, addresses, filter, arrival order)",
 		Clauses: []string{"local-provider-recorded", "local-provider-before-first-send", "add-provider-names-exactly-self", "add-provider-addresses-filtered", "add-provider-one-per-closest", "add-provider-only-to-closest", "nothing-sent-without-addresses", "no-announce-no-rpc", "healthy-recipient-got-record", "provide-despite-failures"}},
 		func(c *vh.Case) {
@@ -755,7 +755,7 @@ func TestVerif_C06_provide(t *testing.T) {
 }
 
 func TestVerif_C06_optprovide(t *testing.T) {
-	vh.Run(t, vh.Spec{Prop: "C06", Unit: "optprovide", Quick: 200, Thorough: 8000, CostMs: 20,
+	vh.Run(t, vh.Spec{Prop: "C06", Unit: "optprovide", Quick: 500, Thorough: 15000, CostMs: 7,
 		Rule:    "Provide with EnableOptimisticProvide and a network-size estimator warmed up over a phantom population of 0.25x/1x/4x N (so that the individual / set thresholds fire early, normally, or never); at least one routing-table peer healthy (finding #1 is C03's); same address/filter/failure mixes as provide; the background ADD_PROVIDERs are given 90 s of virtual time; oracle: R (from lookup events) ⊆ recipients ⊆ learned peers, nobody sent twice, payload and local record as provide; non-trivial as provide",
 		Clauses: []string{"local-provider-recorded", "local-provider-before-first-send", "add-provider-names-exactly-self", "add-provider-addresses-filtered", "optimistic-covers-closest", "optimistic-only-learned", "optimistic-nobody-twice", "optimistic-early-store-seen"}},
 		func(c *vh.Case) {
@@ -767,7 +767,7 @@ func TestVerif_C06_optprovide(t *testing.T) {
 // ---- corrective puts after a completed value search -------------------------------------------------------------
 
 func TestVerif_C06_corrective(t *testing.T) {
-	vh.Run(t, vh.Spec{Prop: "C06", Unit: "corrective", Quick: 300, Thorough: 10000, CostMs: 15,
+	vh.Run(t, vh.Spec{Prop: "C06", Unit: "corrective", Quick: 700, Thorough: 25000, CostMs: 8,
 		Rule:    "value searches of C04 (SearchValue / GetValue, records of all kinds over responders and local store, quorum in {unset,0,1,2,K}), uncancelled, 0-50% of the peers failing PUT_VALUE, 2 virtual minutes for the corrective puts; a search is complete iff it was not ended by its quorum (decided from the number of valid supplies on the wire); oracle for complete searches with a value: exactly one PUT_VALUE {key, best value} to each member of R (top K not-unreachable peers of the embedded lookup, recomputed from its events) that did not answer with the best value's bytes, none to those that did, none elsewhere; for searches ended by quorum: no PUT_VALUE to a holder of the final value; non-trivial = complete search, >= 1 holder of the best value in R and >= 1 corrective put; distinct by (shape, quorum, supplies arrival order)",
 		Clauses: []string{"corrective-to-non-holders", "corrective-not-to-holders", "corrective-only-closest", "corrective-carries-best", "holder-in-closest-seen"}},
 		func(c *vh.Case) {
